@@ -186,7 +186,7 @@ func runC15(prop, tier string, c *kernel.Chooser, r *kernel.Recorder) *kernel.Vi
 			fp := pos[s.bootBlk] + c.Intn(basePos-pos[s.bootBlk])
 			b := s.canon[fp]
 			n := 1 + c.Intn(10)
-			ep := b.Ep
+			ep := max(b.Ep, m.BootstrapEpoch-m.EC.Finality) // nothing at or below the bootstrap epoch is re-organised
 			for j := 0; j < n || ep <= baseBlk.Ep; j++ {
 				ep += 1 + int64(c.Intn(2))
 				b = s.w.Extend(b, ep, nil)
@@ -237,8 +237,20 @@ func runC15(prop, tier string, c *kernel.Chooser, r *kernel.Recorder) *kernel.Vi
 		}
 		now := clk.Now()
 
-		// ---- expected proposal of the next instance
+		// ---- expected proposal: of the next instance, or of an instance whose certificate is
+		// already in the store (it arrived through certificate exchange before the instance began)
 		k := m.InitialInstance + uint64(ncerts)
+		baseBlk := baseBlk
+		if ncerts > 0 && c.Chance(300) {
+			j := c.Intn(ncerts) // instance initial+j, certificate j exists
+			k = m.InitialInstance + uint64(j)
+			if j == 0 {
+				baseBlk = s.bootBlk
+			} else {
+				baseBlk = s.heads[j-1]
+			}
+			r.Probe("proposal_for_instance_already_certified")
+		}
 		var want []*ecworld.Block
 		_ = descends
 		if ecworld.IsAncestor(baseBlk, head) {
